@@ -1,6 +1,7 @@
 mod c01;
 mod c04;
 mod c04w;
+mod c06s;
 mod c07;
 mod c08;
 mod c12;
@@ -85,6 +86,8 @@ fn main() {
             let tier = if args.get(3).map(|s| s == "thorough").unwrap_or(false) { Tier::Thorough } else { Tier::Quick };
             let (prop, part) = match name.as_str() {
                 "c11_attach" => ("C11", mt::part_c11_attach(tier)),
+                "c06_std" => ("C06", c06s::part_std(tier, false)),
+                "c07_std" => ("C07", c06s::part_std(tier, true)),
                 "c09_real" => ("C09", mt::part_c09_real(tier)),
                 "c14_threads" => ("C14", mt::part_c14_threads(tier)),
                 "c14_sim" => ("C14", simk::part_c14_sim(tier)),
@@ -166,12 +169,14 @@ fn run_check(id: &str, tier: Tier) -> i32 {
         "C06" => {
             let mut r = Report::new("C06", tier, "exploration");
             r.parts.push(c19::part_c06_core(tier));
+            r.parts.push(c06s::part_std(tier, false));
             finish(r)
         }
         "C07" => {
             let mut r = Report::new("C07", tier, "exploration");
             r.parts.push(c07::part_parse(tier));
             r.parts.push(c19::part_c07_meaning(tier));
+            r.parts.push(c06s::part_std(tier, true));
             finish(r)
         }
         "C08" => {
